@@ -5,6 +5,15 @@ use crate::Archive;
 use anyhow::{Context, Result};
 use std::collections::HashMap;
 
+// Verification hook: the metadata zstd level becomes a simulator knob (off by default).
+#[cfg(ragc_verif)]
+mod zstd {
+    pub use ::zstd::decode_all;
+    pub fn encode_all<R: std::io::Read>(source: R, level: i32) -> std::io::Result<Vec<u8>> {
+        ::zstd::encode_all(source, crate::verif::meta_zstd_level(level))
+    }
+}
+
 /// A segment descriptor identifying a compressed segment
 ///
 /// # Architecture
